@@ -1,0 +1,160 @@
+//go:build verif
+
+package parser
+
+// Machine-checked contracts for the govc verification-condition generator
+// (see /verif/DESIGN.md).  Comments only; compiled only with the build tag "verif".
+//
+// The adapters are under SAFETY contracts: for every state that satisfies the adapter's representation invariant and
+// every token the decoder can return, Pull neither indexes out of range nor dereferences nil, keeps the invariant,
+// returns a node exactly when it reports neither an end nor an error, and hands every decoder error on unchanged.
+// What the emitted node sequence MEANS (the mapping from documents to trees) is covered by bounded stand-ins
+// (/verif/bounded/xml, /verif/bounded/json, /verif/bounded/html), labelled bounded in the evidence.
+
+// ---------- encoding/xml (assumed) ----------
+
+//@ extern xml.Decoder.Token(d) (tok, err)
+//@   requires d != nil
+//@   ensures err == nil ==> tok != nil
+
+//@ extern xml.CopyToken(t) (r)
+//@   ensures t != nil ==> r != nil
+
+// ---------- parser/xml.go ----------
+
+//@ macro XINV(x) = x != nil && x.xmlReader != nil && wf(x.xmlReader) && 0 <= x.nsPos && 0 <= x.attrPos && wf(x.namespaces) && wf(x.attrs)
+
+//@ func xmlParser.Pull(x) (n, isEnd, err)
+//@   property C09 C15
+//@   requires $XINV(x)$
+//@   modifies x
+//@   ensures $XINV(x)$                                                         @invariant-kept
+//@   ensures err == nil && !isEnd ==> n != nil                                 @a-node-unless-end-or-error
+//@   ensures err != nil ==> n == nil && !isEnd                                 @errors-carry-no-node
+//@   loop 0
+//@     invariant $XINV(x)$ && len(x.namespaces) == 0 && len(x.attrs) == 0 && x.nsPos == 0 && x.attrPos == 0
+//@   loop 1
+//@     invariant $XINV(x)$ && len(x.namespaces) == 0 && len(x.attrs) == 0 && x.nsPos == 0 && x.attrPos == 0
+
+//@ func isXmlWhitespace(s) (r)
+//@   pure
+//@   property C09 C15
+//@   loop 0
+//@     invariant 0 <= i && i <= len(s)
+//@     decreases len(s) - i
+
+//@ func createXmlNamespaces(attrs) (r)
+//@   property C09 C15
+//@   ensures len(r) >= 1 && len(r) <= cap(r) && fresh(r)
+//@   loop 0
+//@     invariant 0 - 1 <= #k && #k < len(attrs) || (len(attrs) == 0 && #k == 0 - 1)
+//@     invariant len(ret) >= 1 && len(ret) <= cap(ret) && fresh(ret)
+//@     decreases len(attrs) - #k
+
+//@ func createXmlAttrs(attrs) (r)
+//@   property C09 C15
+//@   ensures len(r) <= len(attrs) && len(r) <= cap(r) && fresh(r)
+//@   loop 0
+//@     invariant 0 - 1 <= #k && #k < len(attrs) || (len(attrs) == 0 && #k == 0 - 1)
+//@     invariant len(ret) <= #k + 1 && len(ret) <= cap(ret) && fresh(ret)
+//@     decreases len(attrs) - #k
+
+// ---------- encoding/json (assumed) ----------
+// jdepth(d): the nesting depth the decoder is at (ghost).  Token keeps delimiters nested and matched: an opening
+// delimiter goes one level down, a closing one comes up from a level >= 1, everything else stays.
+
+//@ extern json.Decoder.Token(d) (tok, err)
+//@   uses jsonspec
+//@   requires d != nil
+//@   modifies d
+//@   ensures jdepth(deref(d)) >= 0
+//@   ensures err != nil ==> jdepth(deref(d)) == old(jdepth(deref(d)))
+//@   ensures err == nil && isOpenDelim(tok) ==> jdepth(deref(d)) == old(jdepth(deref(d))) + 1
+//@   ensures err == nil && isCloseDelim(tok) ==> old(jdepth(deref(d))) >= 1 && jdepth(deref(d)) == old(jdepth(deref(d))) - 1
+//@   ensures err == nil && !isOpenDelim(tok) && !isCloseDelim(tok) ==> jdepth(deref(d)) == old(jdepth(deref(d)))
+
+//@ extern json.Delim.String(t) (r)
+//@   pure
+//@   uses jsonspec
+//@   ensures r == delimStr(t)
+
+// ---------- parser/json.go ----------
+
+//@ macro JINV(j) = j != nil && j.jsonReader != nil && wf(j.jsonReader) && wf(j.stateStack) && len(j.stateStack) <= cap(j.stateStack) && len(j.stateStack) == jdepth(deref(j.jsonReader))
+
+//@ func jsonParser.pushState(j, s) ()
+//@   property C16 C15
+//@   requires j != nil && wf(j.stateStack) && len(j.stateStack) <= cap(j.stateStack)
+//@   modifies j, arr(j.stateStack)
+//@   ensures len(j.stateStack) == old(len(j.stateStack)) + 1 && len(j.stateStack) <= cap(j.stateStack) && wf(j.stateStack) && j.jsonReader == old(j.jsonReader)
+//@   ensures j.stateStack[len(j.stateStack) - 1].stateType == s
+//@   ensures arr(j.stateStack) == old(arr(j.stateStack)) || fresh(j.stateStack)
+
+//@ func jsonParser.currentState(j) (r)
+//@   pure
+//@   property C16 C15
+//@   requires j != nil && wf(j.stateStack)
+//@   ensures len(j.stateStack) > 0 ==> r == j.stateStack[len(j.stateStack) - 1].stateType
+//@   ensures len(j.stateStack) == 0 ==> r == 2
+
+//@ func jsonParser.popState(j) ()
+//@   property C16 C15
+//@   requires j != nil && wf(j.stateStack) && len(j.stateStack) >= 1 && len(j.stateStack) <= cap(j.stateStack)
+//@   modifies j
+//@   ensures len(j.stateStack) == old(len(j.stateStack)) - 1 && arr(j.stateStack) == old(arr(j.stateStack)) && len(j.stateStack) <= cap(j.stateStack) && wf(j.stateStack) && j.jsonReader == old(j.jsonReader)
+
+//@ func jsonParser.setOnField(j, b) ()
+//@   property C16 C15
+//@   requires j != nil && wf(j.stateStack)
+//@   modifies arr(j.stateStack)
+
+//@ func jsonParser.isOnField(j) (r)
+//@   pure
+//@   property C16 C15
+//@   requires j != nil && wf(j.stateStack)
+
+//@ func jsonParser.setEmitEndElement(j, b) ()
+//@   property C16 C15
+//@   requires j != nil && wf(j.stateStack)
+//@   modifies arr(j.stateStack)
+
+//@ func jsonParser.isOnEmitEndElement(j) (r)
+//@   pure
+//@   property C16 C15
+//@   requires j != nil && wf(j.stateStack)
+
+//@ func jsonTokenValue(tok) (r)
+//@   property C16 C15
+
+//@ func jsonParser.Pull(j) (n, isEnd, err)
+//@   property C16 C15
+//@   uses jsonspec
+//@   requires $JINV(j)$
+//@   modifies j, obj(j.jsonReader), arr(j.stateStack)
+//@   ensures $JINV(j)$                                                         @stack-mirrors-the-decoder
+//@   ensures err == nil && !isEnd ==> n != nil                                 @a-node-unless-end-or-error
+//@   ensures err != nil ==> n == nil && !isEnd                                 @errors-carry-no-node
+
+// ---------- parser/html.go ----------
+// Only the attribute mapping is under contract.  htmlParser.Pull walks the pointer graph of golang.org/x/net/html
+// nodes; its safety rests on shape invariants of that library's trees (a document node has a child, a doctype has a
+// following sibling, Parent/FirstChild/NextSibling are consistent) that were not brought under contract.  It is
+// covered by the bounded stand-in /verif/bounded/html only.
+
+//@ extern strings.SplitN(s, sep, n) (r)
+//@   uses strfn
+//@   ensures fresh(r) && len(r) >= 1 && len(r) <= cap(r)
+//@   ensures n == 2 && sindex(s, sep) >= 0 ==> len(r) == 2
+
+//@ func getLocalName(name) (r)
+//@   property C17 C15
+//@   uses strfn
+
+//@ func createHtmlAttrs(attrs) (r)
+//@   property C17 C15
+//@   uses strfn
+//@   ensures len(r) <= len(attrs) && len(r) <= cap(r)
+//@   loop 0
+//@     invariant 0 - 1 <= #k && #k < len(attrs) || (len(attrs) == 0 && #k == 0 - 1)
+//@     invariant len(ret) <= #k + 1 && len(ret) <= cap(ret) && fresh(ret)
+//@     decreases len(attrs) - #k
